@@ -82,13 +82,17 @@ def sparse_records(ctx, d, rng, rid0, n_datasets):
     for k in range(n_datasets):
         nc = int(rng.randint(3, 9))
         nloc = int(rng.randint(2, nc + 1))
+        if k % 6 == 2:
+            nloc = nc
         nt = int(rng.randint(2, 5))
         ds = D.random_dense(rng, ns=10, nt=nt, nc=nc, nsw=int(rng.randint(2, 5)),
                             whitening=['monomial', 'none', 'triangular'][k % 3])
         Tind = np.asarray([rng.permutation(nc)[:nloc] for _ in range(nt)])
         Ts = rng.randint(-3, 4, size=(nt, ds['T'].shape[1], nloc)).astype(float)
         for t in range(nt):
-            if nloc > 1:
+            # (every third dataset keeps ALL its columns: with nloc = nc the stored list is as long as the probe,
+            # in an order that is not ascending)
+            if nloc > 1 and k % 3 != 2:
                 Tind[t, rng.randint(nloc)] = -1 if rng.rand() < 0.5 else Tind[t, 0]   # unused marker
                 Ts[t, :, rng.randint(nloc)] = 0                                         # signal-free column
             # distinct stored channels (apart from -1)
